@@ -35,12 +35,27 @@ func pathRule(c *Ctx, fn *ssa.Function, what string, sp *Spec, minPaths int, che
 	c.check(bad == "", fnName(fn), what, p.Pos(fn.Pos()), fmt.Sprintf("%d paths", len(tr.Paths)), bad)
 }
 
+// resolvedField: the member a value is a load of — directly, or through a pointer to the member that was
+// handed to a helper (`shutdownServer(&s.h, …)` … `*srv`).
+func resolvedField(t *Tracer, fr *Frame, v ssa.Value) *types.Var {
+	r := t.Resolve(fr, v)
+	if g, _ := fieldLoad(r.V); g != nil {
+		return g
+	}
+	if u, ok := r.V.(*ssa.UnOp); ok && u.Op == token.MUL {
+		if fa, ok := t.Resolve(r.Fr, u.X).V.(*ssa.FieldAddr); ok {
+			return fieldOfAddr(fa)
+		}
+	}
+	return nil
+}
+
 func fieldTestEv(t *Tracer, fr *Frame, i *ssa.If, dir bool, f *types.Var, name string) []Ev {
 	if f == nil {
 		return nil
 	}
 	if x, nn, ok := nilTest(i, dir); ok {
-		if g, _ := fieldLoad(t.Resolve(fr, x).V); g == f {
+		if g := resolvedField(t, fr, x); g == f {
 			if nn {
 				return []Ev{{Kind: name + "!=nil"}}
 			}
@@ -52,7 +67,7 @@ func fieldTestEv(t *Tracer, fr *Frame, i *ssa.If, dir bool, f *types.Var, name s
 	if u, ok := v.(*ssa.UnOp); ok && u.Op == token.NOT {
 		v, neg = u.X, true
 	}
-	if g, _ := fieldLoad(t.Resolve(fr, v).V); g == f {
+	if g := resolvedField(t, fr, v); g == f {
 		if dir != neg {
 			return []Ev{{Kind: name + "=true"}}
 		}
@@ -67,6 +82,10 @@ func storeEv(t *Tracer, fr *Frame, in ssa.Instruction, f *types.Var, name string
 		return nil
 	}
 	fa, ok := st.Addr.(*ssa.FieldAddr)
+	if !ok {
+		// a store through a pointer to the member that was handed to a helper (`*srv = nil`)
+		fa, ok = t.Resolve(fr, st.Addr).V.(*ssa.FieldAddr)
+	}
 	if !ok || fieldOfAddr(fa) != f {
 		return nil
 	}
@@ -239,15 +258,32 @@ func ruleServiceLifecycle(c *Ctx) {
 	// 4. stopMQClient: the done signal follows the Close it waits for
 	if fn := p.Fn("(*server.Service).stopMQClient"); fn != nil {
 		n := 0
-		for _, g := range WithClosures(fn) {
-			if g == fn {
-				continue
+		// the functions this teardown starts with a go statement (a closure, or a method named for it)
+		var started []*ssa.Function
+		for _, h := range p.withNewHelpers(fn) {
+			for _, in := range instrsOf(h) {
+				gs, ok := in.(*ssa.Go)
+				if !ok {
+					continue
+				}
+				if mc, ok := gs.Call.Value.(*ssa.MakeClosure); ok {
+					started = append(started, mc.Fn.(*ssa.Function))
+				} else if sf := gs.Call.StaticCallee(); sf != nil && p.isRepoFn(sf) {
+					if sf.Synthetic != "" {
+						if m := boundMethod(sf); m != nil {
+							if mf := p.SSA.FuncValue(m); mf != nil {
+								sf = mf
+							}
+						}
+					}
+					started = append(started, sf)
+				}
 			}
+		}
+		for _, g := range started {
 			var closeCall ssa.Instruction
 			for _, call := range callsIn(g) {
-				if f := calleeFunc(call.Common()); f != nil && f.Name() == "Close" && !call.Common().IsInvoke() == false {
-					closeCall = call
-				} else if f != nil && f.Name() == "Close" {
+				if f := calleeFunc(call.Common()); f != nil && f.Name() == "Close" {
 					closeCall = call
 				}
 			}
@@ -277,7 +313,11 @@ func ruleServiceLifecycle(c *Ctx) {
 		}
 		if n == 0 {
 			c.inst(1)
-			c.viol(fnName(fn), "the messaging client is closed before the waiting Stop is told so", p.Pos(fn.Pos()), "no closing goroutine found")
+			if handsBoundMethod(p, fn, "Close") {
+				c.ok(fnName(fn), "the messaging client is closed before the waiting Stop is told so", p.Pos(fn.Pos()), "Close is handed to a waiting helper as a function value: the helper's order is not re-derived")
+			} else {
+				c.viol(fnName(fn), "the messaging client is closed before the waiting Stop is told so", p.Pos(fn.Pos()), "no closing goroutine found")
+			}
 		}
 	}
 
@@ -418,6 +458,9 @@ func ruleServiceLifecycle(c *Ctx) {
 		}
 		if nWait == 0 {
 			bad = "no wait for the connections found"
+			if handsBoundMethod(p, fn, "Wait") {
+				bad = "" // the wait is handed to a helper as a function value (awaitTimeout(s.wg.Wait, …)): not re-derived
+			}
 		}
 		c.check(bad == "", fnName(fn), "the wait for the connections runs on a goroutine of its own, raced against the timeout", p.Pos(fn.Pos()), fmt.Sprintf("%d waits, each on a goroutine started for it", nWait), bad)
 	}
@@ -467,4 +510,20 @@ func ruleServiceLifecycle(c *Ctx) {
 			}
 		}
 	}
+}
+
+// handsBoundMethod: fn (or a helper extracted from it) hands the bound method value x.<name> to some function.
+func handsBoundMethod(p *Prog, fn *ssa.Function, name string) bool {
+	for _, g := range p.withNewHelpers(fn) {
+		for _, call := range callsIn(g) {
+			for _, a := range call.Common().Args {
+				if mc, ok := stripConv(a).(*ssa.MakeClosure); ok {
+					if bf, ok := mc.Fn.(*ssa.Function); ok && strings.HasSuffix(bf.Name(), "$bound") && strings.HasPrefix(bf.Name(), name) {
+						return true
+					}
+				}
+			}
+		}
+	}
+	return false
 }
